@@ -1,4 +1,6 @@
 from ._common import STD_TRUST
+from .C06 import REGEN as _C06_REGEN
+from .C03 import REGEN as _C03_REGEN
 
 
 def _regen_wireconsts(ctx):
@@ -6,14 +8,16 @@ def _regen_wireconsts(ctx):
     return harness_regen(ctx, 'wireconsts', 'WireConsts.lean')
 
 
-REGEN = {'wireconsts': _regen_wireconsts}
+REGEN = dict(_C06_REGEN)
+REGEN.update(_C03_REGEN)
+REGEN['wireconsts'] = _regen_wireconsts
 
 PROP = dict(
     level='proof',
-    regen=['crctable', 'wireconsts'],
+    regen=['crctable', 'wireconsts', 'consts', 'integconsts', 'decapiconsts', 'decapistdfac'],
     theorems=['Fit.C01.C01_wire_records', 'Fit.C01.C01_wire_sequence', 'Fit.C01.C01_wire_chain',
               'Fit.C01.C01_ts_nonmonotone_roundtrip', 'Fit.C01.C01_ts_wild_roundtrip', 'Fit.C01.C01_fix_conservative'],
-    families=[dict(name='encw'), dict(name='decw'), dict(name='rtw', prop=True)],
+    families=[dict(name='encw'), dict(name='decw'), dict(name='rtw', prop=True), dict(name='rte2e', prop=True)],
     trusted_base=STD_TRUST + [
         "wire-level model FitModel/Wire.lean (encoder framing, LRU, compressed timestamps, header/CRC, chained files; decoder framing and timestamp tracking) is hand-written and tied by the families encw (real encoder, pass-through validator, 4 writer kinds, 10 buffer sizes), decw (real decoder on fixtures, encoder outputs and mutants, listener events) and rtw (real encode→decode with the round-trip predicate evaluated by the Lean driver)",
         "a field value is its marshalled byte string at this level; unmarshal∘marshal is C06, validation is C10",
